@@ -43,6 +43,33 @@ def crate_hash():
     return sha_tree([os.path.join(KANI_CRATE, "src"), os.path.join(KANI_CRATE, "Cargo.toml")])
 
 
+def crate_hash_mod(mod):
+    """Hash of what one harness module is compiled from: the shared files of the
+    crate, the module itself and the harness modules it names (`crate::h::x`)."""
+    src = os.path.join(KANI_CRATE, "src")
+    mods, todo = set(), [mod]
+    while todo:
+        m = todo.pop()
+        if m in mods:
+            continue
+        mods.add(m)
+        try:
+            txt = open(os.path.join(src, "h", m + ".rs")).read()
+        except OSError:
+            return crate_hash()
+        for dep in re.findall(r"crate::h::(\w+)", txt):
+            todo.append(dep)
+    paths = [os.path.join(KANI_CRATE, "Cargo.toml")]
+    for d, dn, fn in os.walk(src):
+        dn[:] = sorted(dn)
+        for f in sorted(fn):
+            p = os.path.join(d, f)
+            if os.path.basename(d) == "h" and f.endswith(".rs") and f[:-3] not in mods:
+                continue
+            paths.append(p)
+    return sha_tree(paths)
+
+
 def prepare_crate():
     """Copy /repo/Cargo.lock next to the harness crate (path dependency pins)."""
     src = os.path.join(REPO, "Cargo.lock")
